@@ -153,6 +153,22 @@ def source_fn(desc, ieq, dim=1):
     if desc.get("scalar") is not None and False:
         return None
     c0, cx, cq = desc.get("c0", 0.0), desc.get("cx", 0.0), desc.get("cq", [])
+    mode = desc.get("mode", "fresh")
+    if mode == "view":
+        # the source IS one of the conserved variables: the function returns the state array it was given (no copy), e.g. S_mass = rho u
+        j = desc["var"]
+        return lambda x, q, j=j: q[j]
+    if mode == "table":
+        # tabulated source: the same array object is returned at every call (the user's table must never be modified)
+        cache = {}
+
+        def T(x, q, c0=c0, cx=cx, cache=cache):
+            if "t" not in cache:
+                cache["t"] = c0 + cx * np.asarray(x, dtype=float)
+                cache["keep"] = cache["t"].copy()
+            return cache["t"]
+        T.cache = cache
+        return T
 
     def S(x, q, c0=c0, cx=cx, cq=cq):
         out = c0 + cx * np.asarray(x, dtype=float)
@@ -167,6 +183,10 @@ def source_value(desc, x, q):
     """oracle-side evaluation of the same source descriptor"""
     if desc is None:
         return 0.0 * np.asarray(x, dtype=float)
+    if desc.get("mode") == "view":
+        return np.array(q[desc["var"]], dtype=float, copy=True)
+    if desc.get("mode") == "table":
+        return desc.get("c0", 0.0) + desc.get("cx", 0.0) * np.asarray(x, dtype=float)
     out = desc.get("c0", 0.0) + desc.get("cx", 0.0) * np.asarray(x, dtype=float)
     for j, c in enumerate(desc.get("cq", [])):
         if c != 0.0 and j < len(q):
